@@ -13,7 +13,7 @@ import zoo
 import zoo_c12 as Z
 
 PROPERTY = "C12"
-LEAN_MODULE = "PyOak.Props.C12"
+LEAN_MODULE = "PyOak.Props.C12All"
 _NS = "PyOak.Acc.C12."
 THEOREMS = [_NS + t for t in [
     "fields_eq_declOrder", "fields_names_nodup", "fields_names", "fields_most_derived",
@@ -27,7 +27,9 @@ THEOREMS = [_NS + t for t in [
     "with_field_truthiness_irrelevant", "child_uids_truthiness_irrelevant",
     "call_runs_own_function", "without_repointing_fails", "F12_pre_fix_fails", "F17_pre_fix_fails",
     "strLt_irrefl", "strLt_asymm", "strLt_total", "strLt_negtrans", "sortByName_perm", "sortByName_pairwise",
-]]
+]] + ["PyOak.C12X." + t for t in [
+    "sortByName_stable", "stableSort_unique", "edgesSorted_eq_stableSort", "edgesSorted_spec", "edgesSorted_unique",
+    "get_child_nodes_with_field_sorted", "get_child_nodes_sorted", "iter_child_fields_sorted"]]
 RULE = ("seeded generated class hierarchies (source text exec'ed in a fresh module; 1-3 levels, 0-6 fields per level; "
         "10 property shapes, 9 single-child shapes, 7 tuple shapes; overrides that keep or change the kind; defaults, "
         "init=False, compare=False, both, kw_only; re-declared origin; plain and postponed annotations) x every schedule "
